@@ -84,6 +84,7 @@ type Stats struct {
 	Vacuous      int
 	Inconclusive int
 	InconMsgs    map[string]int
+	InconExample string
 	Branches     int // decided branch edges (new decisions only, not prefix replays)
 	Repaired     int // of those: sibling shown feasible by a concrete model found near the witness (no solver call)
 	Choices      int
@@ -683,7 +684,14 @@ func (ex *Explorer) done(p *pathCtx, instrs int64) {
 	}
 	if p.inconclusive != "" {
 		st.Inconclusive++
-		st.InconMsgs[p.inconclusive]++
+		key := p.inconclusive
+		if i := strings.IndexByte(key, '\n'); i >= 0 {
+			key = key[:i]
+			if st.InconExample == "" {
+				st.InconExample = p.inconclusive
+			}
+		}
+		st.InconMsgs[key]++
 	}
 	for l := range p.cover {
 		st.Cover[l]++
